@@ -25,7 +25,6 @@ from __future__ import annotations
 
 import ast
 
-from ..cfg import NORMAL
 from ..dataflow import defs_of, origins
 from ..model import dotted, unparse, walk_no_nested
 from ..selftest import V
@@ -179,9 +178,7 @@ def r2(ctx):
         loops = enclosing_loops(c, f.node)
         ctx.require(len(loops) == 1, "C13.R2: get_targets is not called from a single loop over the filters")
         lp = loops[0]
-        if tgt is None:
-            continue
-        aliases = {tgt}
+        aliases = {tgt} if tgt is not None else set()
         changed = True
         while changed:
             changed = False
@@ -190,10 +187,10 @@ def r2(ctx):
                     if n.value.id in aliases and n.targets[0].id not in aliases:
                         aliases.add(n.targets[0].id)
                         changed = True
-        chain |= aliases
         args = bind_args(c, p.func(f"{BF}.get_targets").node, skip_self=True)
         arg = args.get("targets")
         ctx.require(arg is not None, "C13.R2: `targets` argument of get_targets not found")
+        chain |= aliases or ({arg.id} if isinstance(arg, ast.Name) else set())
         chained = isinstance(arg, ast.Name) and arg.id in aliases
         ctx.ob("R2", "each filter is applied on the result of the previous one", chained, func=f, node=c, instance="schedule:chained",
                message=f"schedule: get_targets receives `{_norm(arg)}` instead of the previous filter's result: earlier filters are undone")
@@ -429,6 +426,7 @@ def _r3_filter(ctx):
                 break
             n = getattr(n, "_parent", None)
         loops = enclosing_loops(c if comp is None else comp, f.node)
+        all_loops = list(loops)
         if comp is not None:
             rule_iter = next(gg.iter for gg in comp.generators if isinstance(gg.target, ast.Name) and gg.target.id == rv)
             ctx.require(len(comp.generators) == 1, "C13.R3: rule comprehension with several generators is not interpretable")
@@ -438,8 +436,7 @@ def _r3_filter(ctx):
             ok_any = agg == "any" and not comp.generators[0].ifs
             ctx.ob("R3", "a target is kept iff ANY rule evaluates true", ok_any, func=f, node=par if is_call else comp, instance="filter:any",
                    message=f"MatchingBindingFilter.get_targets aggregates the rule results with `{agg or _norm(par)[:30]}` instead of any()")
-            if not ok_any:
-                continue
+            ctx.require(is_call, "C13.R3: the rule comprehension is not the argument of an aggregate call")
             atom_node = par
         else:
             rl = [lp for lp in loops if isinstance(lp.target, ast.Name) and lp.target.id == rv]
@@ -450,13 +447,28 @@ def _r3_filter(ctx):
             ctx.ob("R3", "a target is kept iff ANY rule evaluates true", True, func=f, node=c, instance="filter:any")
         ctx.require(any(dotted(o) == "self.matching_rules" for o in origins(f, rule_iter)),
                     f"C13.R3: rules are taken from `{_norm(rule_iter)}`, not from self.matching_rules")
-        # the target loop
-        tl = [lp for lp in loops if isinstance(lp.target, ast.Name) and any(isinstance(o, ast.Name) and o.id == tparam for o in origins(f, lp.iter) + [lp.iter])]
-        if not tl:
+        # the target iteration: a for loop, or a filtering comprehension `[t for t in targets if <guard>]`
+        fcomp = fcond = None
+        n = atom_node
+        while n is not None and n is not f.node:
+            par2 = getattr(n, "_parent", None)
+            if isinstance(par2, ast.comprehension) and any(n is x for x in par2.ifs):
+                fcond, fcomp = n, par2._parent
+                break
+            n = par2
+        if fcomp is not None:
+            ctx.require(isinstance(fcomp, (ast.ListComp, ast.GeneratorExp)) and len(fcomp.generators) == 1 and isinstance(fcomp.generators[0].target, ast.Name),
+                        "C13.R3: filtering comprehension shape not interpretable")
+            tv = fcomp.generators[0].target.id
+            t_iter = fcomp.generators[0].iter
+        else:
             tl = [lp for lp in loops if isinstance(lp.target, ast.Name)]
-        ctx.require(bool(tl), "C13.R3: loop over the targets around the rule evaluation not found")
-        tloop = tl[0]
-        tv = tloop.target.id
+            ctx.require(bool(tl), "C13.R3: iteration over the targets around the rule evaluation not found")
+            tloop = tl[0]
+            tv = tloop.target.id
+            t_iter = tloop.iter
+        ctx.require(_leads_to(f, t_iter, {tparam}) or any(tparam in {x.id for x in ast.walk(o) if isinstance(x, ast.Name)} for o in origins(f, t_iter)),
+                    f"C13.R3: the rule evaluation iterates `{_norm(t_iter)}`, which does not derive from the `{tparam}` parameter (shape not interpretable)")
         # arguments: this target's deployment name and service
         args = bind_args(c, p.func(f"{RULE}.eval").node, skip_self=True)
         want = {"job": {jobp}, "deployment": {f"{tv}.deployment.name"}, "service": {f"{tv}.service"}}
@@ -465,27 +477,40 @@ def _r3_filter(ctx):
             got = {dotted(o) for o in origins(f, a)} if a is not None else set()
             ctx.ob("R3", f"rule.eval receives {k} of the examined target", bool(got) and got <= w, func=f, node=c, instance=f"filter:arg:{k}",
                    message=f"MatchingBindingFilter.get_targets passes {k}={_norm(a) if a is not None else '<missing>'} to rule.eval (expected {sorted(w)[0]})")
-        # guarded accumulation
-        tn = g.node_containing(atom_node)
-        ctx.require(len(tn) == 1 and g.nodes[tn[0]].kind == "test", "C13.R3: the rule evaluation is not the guard of a branch")
-        t = tn[0]
-        v = fold3(g.nodes[t].ast, lambda e: True if e is atom_node else None)
-        ctx.require(v is not None, f"C13.R3: cannot fold guard `{_norm(g.nodes[t].ast)}`")
-        acc = [n.id for n in g.nodes.values() if any(
-            isinstance(x.func, ast.Attribute) and x.func.attr in ("append", "add") and len(x.args) == 1
-            and isinstance(x.args[0], ast.Name) and x.args[0].id == tv for x in n.calls())]
-        ctx.ob("R3", "a matching target is added to the result", bool(acc) and bool(set(acc) & g.reach(edge_succ(g, t, "t" if v else "f"), avoid=[t], include_src=True)),
-               func=f, node=g.nodes[t].ast, instance="filter:keep", message="MatchingBindingFilter.get_targets: a target with a matching rule is not added to the result")
-        heads = [i for lp in [tloop] + [x for x in loops if x is not tloop] for i in g.ids_of(lp)]
-        leak = set(acc) & g.reach(edge_succ(g, t, "f" if v else "t"), avoid=[t] + heads, include_src=True)
-        ctx.ob("R3", "a target without a matching rule is not added", not leak, func=f, node=g.nodes[t].ast, instance="filter:drop",
-               message="MatchingBindingFilter.get_targets: a target is added although no rule matched")
-        # emptiness
+        keep_msg = "MatchingBindingFilter.get_targets: a target with a matching rule is not added to the result"
+        drop_msg = "MatchingBindingFilter.get_targets: a target is added although no rule matched"
         coll = set()
-        for a in acc:
-            for x in g.nodes[a].calls():
-                if isinstance(x.func, ast.Attribute) and x.func.attr in ("append", "add") and isinstance(x.func.value, ast.Name):
-                    coll.add(x.func.value.id)
+        if fcomp is not None:
+            others = [x for x in fcomp.generators[0].ifs if x is not fcond]
+            v_t = fold3(fcond, lambda e: True if e is atom_node else None)
+            v_f = fold3(fcond, lambda e: False if e is atom_node else None)
+            elt_ok = isinstance(fcomp.elt, ast.Name) and fcomp.elt.id == tv
+            ctx.ob("R3", "a matching target is added to the result", v_t is True and elt_ok and not others, func=f, node=fcond, instance="filter:keep", message=keep_msg)
+            ctx.ob("R3", "a target without a matching rule is not added", v_f is False, func=f, node=fcond, instance="filter:drop", message=drop_msg)
+            st = fcomp
+            while not isinstance(st, ast.stmt):
+                st = st._parent
+            if isinstance(st, ast.Assign) and len(st.targets) == 1 and isinstance(st.targets[0], ast.Name):
+                coll.add(st.targets[0].id)
+        else:
+            # guarded accumulation
+            tn = g.node_containing(atom_node)
+            ctx.require(len(tn) == 1 and g.nodes[tn[0]].kind == "test", "C13.R3: the rule evaluation is not the guard of a branch")
+            t = tn[0]
+            v = fold3(g.nodes[t].ast, lambda e: True if e is atom_node else None)
+            ctx.require(v is not None, f"C13.R3: cannot fold guard `{_norm(g.nodes[t].ast)}`")
+            acc = [n.id for n in g.nodes.values() if any(
+                isinstance(x.func, ast.Attribute) and x.func.attr in ("append", "add") and len(x.args) == 1
+                and isinstance(x.args[0], ast.Name) and x.args[0].id == tv for x in n.calls())]
+            ctx.ob("R3", "a matching target is added to the result", bool(acc) and bool(set(acc) & g.reach(edge_succ(g, t, "t" if v else "f"), avoid=[t], include_src=True)),
+                   func=f, node=g.nodes[t].ast, instance="filter:keep", message=keep_msg)
+            heads = [i for lp in all_loops for i in g.ids_of(lp)]
+            leak = set(acc) & g.reach(edge_succ(g, t, "f" if v else "t"), avoid=[t] + heads, include_src=True)
+            ctx.ob("R3", "a target without a matching rule is not added", not leak, func=f, node=g.nodes[t].ast, instance="filter:drop", message=drop_msg)
+            for a in acc:
+                for x in g.nodes[a].calls():
+                    if isinstance(x.func, ast.Attribute) and x.func.attr in ("append", "add") and isinstance(x.func.value, ast.Name):
+                        coll.add(x.func.value.id)
         _emptiness(ctx, f, g, coll)
 
 
@@ -599,6 +624,7 @@ def r5(ctx):
                 continue
             res = OrderClassifier(p, src(key), complete=True).classify(f, a)
             if res.kind == BAD:
+                n_decl += 1
                 for node, why in res.bads:
                     ctx.ob("R5", f"BindingConfig.{key} keeps the declared order", False, func=f, node=node, instance=f"binding:{key}:{_norm(node)}",
                            message=f"get_binding_config: BindingConfig.{key} is not the declared sequence: {why}")
@@ -611,7 +637,7 @@ def r5(ctx):
 
 
 RULES = [("R1", r1), ("R2", r2), ("R3", r3), ("R4", r4), ("R5", r5)]
-FLOORS = {"R1": 2, "R2": 8, "R3": 14, "R4": 3, "R5": 2}
+FLOORS = {"R1": 2, "R2": 8, "R3": 13, "R4": 3, "R5": 3}
 
 _TASKS = "for target in targets]"
 _IMPORT_RANDOM = "import random"
